@@ -6,12 +6,14 @@ package util
 
 //@ func StripPrefix
 //@   property C01 C16
+//@   safety
 //@   ensures res == stripped(path, prefix)
 //@   ensures !hasPrefix(path, prefix) ==> res == path
 //@   ensures hasPrefix(path, prefix) ==> hasPrefix(res, "/")
 
 //@ func ResolveURLPath
 //@   property C16
+//@   safety
 //@   ensures baseURL == "" ==> res == pathOrURL
 //@   ensures baseURL != "" && pathOrURL == "" ==> res == baseURL
 
@@ -19,6 +21,7 @@ package util
 //@ spec func hostOfAddr(a string) string = ite(purecall("net.SplitHostPort#2", "error", a) == nil, purecall("net.SplitHostPort", "string", a), a)
 //@ func GetClientIP
 //@   property C17
+//@   safety
 //@   requires r != nil
 //@   ensures !trustProxyHeaders ==> res == hostOfAddr(r.RemoteAddr)
 
